@@ -761,7 +761,13 @@ func wireGenResp(k *kernel.Kernel, op *wireOp, proto int) wireResp {
 						k.Fault("resp.null-cell")
 						continue
 					}
+					genShortUDT = true
+					before := shortUDTs
 					v, b := genValue(tp, c.t, proto)
+					genShortUDT = false
+					if shortUDTs != before {
+						k.Fault("resp.udt-value-older-than-its-type")
+					}
 					row = append(row, wireCell{val: v, bytes: b})
 				}
 				r.rows = append(r.rows, row)
